@@ -16,6 +16,7 @@ import (
 	"verif/harness/c01"
 	"verif/harness/c03"
 	"verif/harness/c07"
+	"verif/harness/c08"
 	"verif/harness/c09"
 	"verif/harness/c10"
 	"verif/harness/c15"
@@ -28,6 +29,7 @@ var runners = map[string]core.Runner{
 	"C16": c01.Runner16,
 	"C03": c03.Runner,
 	"C07": c07.Runner,
+	"C08": c08.Runner,
 	"C09": c09.Runner,
 	"C10": c10.Runner,
 	"C15": c15.Runner,
